@@ -354,6 +354,35 @@ func runC16(c *Ctx) {
 			// exclusively together with a store <flag>=true, and every path to the send crosses an edge on which a
 			// load of that flag, made under G, is false.
 			guarded, why := closedGuarded(c, e, fn, op.ins, directCloses)
+			if !guarded && !ast.IsExported(fn.Name()) && fn.Parent() == nil {
+				// a helper of the senders (the overflow handling of Send, the loop of the hub's broadcast arm): the condition
+				// is required where it is called - in the hub loop, under Room.mu, or behind the closed-state guard
+				sites, okSites := 0, 0
+				for _, g := range c.srcFuncs(wsPkg) {
+					eachCall(g, func(cs ssa.CallInstruction) {
+						if staticFn(cs) != fn {
+							return
+						}
+						sites++
+						ci := cs.(ssa.Instruction)
+						if fnKey(topParent(g)) == wsPkg+".Hub.Run" {
+							okSites++
+							return
+						}
+						atg, _ := e.analyse(g)
+						if atg[ci][wsPkg+".Room.mu"] >= modeRead {
+							okSites++
+							return
+						}
+						if gd, _ := closedGuarded(c, e, g, ci, directCloses); gd {
+							okSites++
+						}
+					})
+				}
+				if sites > 0 && sites == okSites {
+					guarded = true
+				}
+			}
 			c.ob("C16-R3", key, op.ins.Pos(), guarded, "send on Connection.send outside the hub loop and outside Room.mu with no closed-state guard ("+why+"): after the hub closed the channel (disconnect) this send panics")
 		}
 	}
@@ -627,12 +656,30 @@ func c16Extra(c *Ctx) {
 					c2, ok := y.(*ssa.Call)
 					return ok && callName(c2) == "builtin.close" && chanFromField(c2.Call.Args[0], "Connection", "send")
 				}
-				for _, g := range withAnon(sf) { // the close may sit in the function handed to sync.Once.Do
-					if reachesInstr(g, isClose, 0, map[*ssa.Function]bool{}) {
-						return true
+				// the close may sit in the function handed to sync.Once.Do, some calls down
+				seen := map[*ssa.Function]bool{}
+				var closesIn func(f *ssa.Function, d int) bool
+				closesIn = func(f *ssa.Function, d int) bool {
+					if f == nil || seen[f] || d > 4 || f.Pkg == nil || f.Pkg.Pkg.Path() != wsPath || len(f.Blocks) == 0 {
+						return false
 					}
+					seen[f] = true
+					r := false
+					for _, g := range withAnon(f) {
+						eachInstr(g, func(_ *ssa.BasicBlock, _ int, y ssa.Instruction) {
+							if isClose(y) {
+								r = true
+							}
+							if c2, ok := y.(*ssa.Call); ok && !r {
+								if closesIn(staticFn(c2), d+1) {
+									r = true
+								}
+							}
+						})
+					}
+					return r
 				}
-				return false
+				return closesIn(sf, 0)
 			}
 			insertsOrCloses := func(x ssa.Instruction) bool {
 				if mu, ok := x.(*ssa.MapUpdate); ok && loadedFromField(mu.Map, "Hub", "connections") {
